@@ -250,3 +250,63 @@ def nontrivial_key(case, impl):
     if not case["muts"]:
         return None
     return (case["kind"], tuple(tuple(m) for m in case["muts"]))
+
+
+# ---------------------------------------------------------------- same-named functions (implementation only)
+def extra_checks(ctx):
+    """Equality over pulse shapes that share their __module__ / __qualname__ (closures of one factory, lambdas of one
+    scope, a notebook cell run twice) but behave differently: descriptions cannot tell them apart, so `==` has to.
+    The statement checked on the implementation alone: whenever two blueprints / elements / sequences compare equal,
+    they forge to identical arrays; the same object (and a copy) compares equal."""
+    import random
+    import numpy as np
+    from broadbean.blueprint import BluePrint
+    from broadbean.element import Element
+    from broadbean.sequence import Sequence
+    rng = random.Random(ctx["seed"] + 9)
+
+    def make_decay(tau):
+        def decay(ampl, SR, npts):
+            t = np.arange(int(npts)) / SR
+            return ampl * np.exp(-t / tau)
+        return decay
+
+    evals, fails = 0, []
+    taus = [0.1, 0.4]
+    shapes = [make_decay(t) for t in taus] + [lambda ampl, SR, npts: ampl * np.ones(int(npts)),
+                                               lambda ampl, SR, npts: -ampl * np.ones(int(npts)), make_decay(0.1)]
+    n = len(shapes) ** 2
+    for pick in [(i, j) for i in range(len(shapes)) for j in range(len(shapes))]:      # every ordered pair, the diagonal included
+        same_object = pick[0] == pick[1]
+        objs = []
+        for k in range(2):
+            bp = BluePrint()
+            bp.insertSegment(0, shapes[pick[k]], (0.5,), name="s", dur=0.2)
+            bp.insertSegment(1, shapes[pick[k]], (0.25,), name="t", dur=0.1)
+            bp.setSR(100)
+            el = Element()
+            el.addBluePrint(1, bp)
+            sq = Sequence()
+            sq.setSR(100)
+            sq.addElement(1, el)
+            sq.setChannelAmplitude(1, 2)
+            sq.setChannelOffset(1, 0)
+            objs.append((bp, el, sq))
+        forged = [el.getArrays()[1]["wfm"] for _bp, el, _sq in objs]
+        identical = np.array_equal(forged[0], forged[1])
+        for kind, a, b in (("blueprints", objs[0][0], objs[1][0]), ("elements", objs[0][1], objs[1][1]),
+                           ("sequences", objs[0][2], objs[1][2])):
+            evals += 1
+            eq, eq2 = (a == b), (b == a)
+            if eq != eq2:
+                fails.append(f"{kind}: a == b is {eq} but b == a is {eq2} (same-named functions)")
+            if eq and not identical:
+                fails.append(f"{kind} built from two different functions that share their qualified name "
+                             f"({shapes[pick[0]].__qualname__}) compare equal but forge to different arrays")
+            if same_object and not eq:
+                fails.append(f"{kind} built from the same function object with the same arguments compare unequal")
+            if not (a == a.copy()):
+                fails.append(f"{kind}: a copy does not compare equal to its original (user-defined closure as pulse shape)")
+    for f in fails[:2]:
+        ctx["report"]("equality over same-named functions: " + f[:300], {"family_failure": f}, True)
+    return {"evaluations": evals, "distinct_nontrivial": n, "samples": [{"same_named_function_pairs": n}]}
